@@ -106,6 +106,7 @@ func propC01(run *Run, n int) {
 		a, b := largeEndsPair(r, 2100+r.Intn(50), true)
 		addLargeArrayCase(run, a, b, false)
 	}
+	addDeepPathCases(run, func(o OptSet, label string, a, b *Val) { addC01Case(run, o, label, a, b) })
 	for i := 0; i < n; i++ {
 		ch := choices[r.Intn(len(choices))]
 		cfg := ch.cfg()
@@ -351,5 +352,29 @@ func init() {
 	recipes["c01"] = func(run *Run, a []string) { addC01Case(run, mustOpts(a[0]), "corpus", mustVal(a[1]), mustVal(a[2])) }
 	recipes["c01t"] = func(run *Run, a []string) {
 		addC01CaseT(run, mustOpts(a[0]), "corpus", mustVal(a[1]), mustVal(a[2]), false)
+	}
+}
+
+// addDeepPathCases: fixed pairs (independent of the random stream) whose arrays sit at paths of 1 … 40 elements, in the
+// set readings with a member common to both sides AND members added / removed: paths are slices that the diff extends at
+// every level, and what a hunk's path says must not depend on the capacity a copy of a shorter path happened to get
+func addDeepPathCases(run *Run, add func(o OptSet, label string, a, b *Val)) {
+	wrap := func(v *Val, depth int) *Val {
+		for k := 0; k < depth; k++ {
+			if k%5 == 4 {
+				v = VArr(v)
+			} else {
+				v = VObj("k", v)
+			}
+		}
+		return v
+	}
+	for _, depth := range []int{1, 2, 3, 4, 5, 7, 8, 9, 15, 16, 17, 18, 19, 21, 23, 31, 32, 33, 40} {
+		ia, ib := VArr(VObj("id", VNum(1), "v", VStr("x")), VNum(2)), VArr(VObj("id", VNum(1), "v", VStr("y")), VNum(3))
+		add(OptKeys("id"), fmt.Sprintf("SetKeys(id)-depth-%d", depth), wrap(ia, depth), wrap(ib, depth))
+		sa, sb := VArr(VObj("id", VNum(1)), VNum(2)), VArr(VObj("id", VNum(1)), VNum(3))
+		add(OptSetO, fmt.Sprintf("SET-depth-%d", depth), wrap(sa, depth), wrap(sb, depth))
+		add(OptKeys("id"), fmt.Sprintf("SetKeys(id)-depth-%d", depth), wrap(sa, depth), wrap(sb, depth))
+		run.Count("fixed:deep-paths")
 	}
 }
